@@ -139,6 +139,16 @@ class TypeTreeHooks(Hooks):
             base = args[1][0] if args[1] else None
             if isinstance(base, ClassRef) and base.qual == PARAM or isinstance(base, PCls):
                 return PCls(dict(args[2]))
+            # the REAL create_type reached through a bare registered class (OrType.create_type(...) inside a static factory such as from_left):
+            # `type(name, (cls,), {args, field_name, type_name})` is the parametrised class
+            d = args[2]
+            if isinstance(base, TCls):
+                return TCls(base.prim, list(d.get('args', [])), d.get('field_name'), d.get('type_name'))
+            if isinstance(base, ClassRef) and self.repo.is_subclass(base.qual, f'{T}.base.MichelsonType'):
+                prim = next((self.repo.classes[c].keywords.get('prim') for c in [base.qual] + self.repo.mro(base.qual)
+                             if c in self.repo.classes and self.repo.classes[c].keywords.get('prim') is not None), None)
+                if prim is not None and all(isinstance(a, TCls) for a in d.get('args', [])):
+                    return TCls(prim, list(d.get('args', [])), d.get('field_name'), d.get('type_name'))
         if isinstance(callee, Builtin) and callee.name == 'type' and len(args) == 1 and isinstance(args[0], Obj) and '_t' in args[0].fields:
             return args[0].fields['_t']
         if isinstance(callee, TCls):
